@@ -52,3 +52,8 @@ func (v *VerifBackoff) Wait()                                  { v.b.wait() }
 func (v *VerifBackoff) Duration() time.Duration                { return v.b.duration() }
 func (v *VerifBackoff) DurationForAttempt(n int) time.Duration { return v.b.durationForAttempt(n) }
 func (v *VerifBackoff) Reset()                                 { v.b.reset() }
+
+// SetCap changes the cap of a back-off object that may already have been used; Copy is the
+// struct copy of one (a template handed on).
+func (v *VerifBackoff) SetCap(c int)        { v.b.Cap = c }
+func (v *VerifBackoff) Copy() *VerifBackoff { c := *v; return &c }
